@@ -172,6 +172,9 @@ pub struct Config {
     /// with_capacity(peak live size) at every step (0 = not checked)
     #[serde(default)]
     pub churn_bound: u32,
+    /// C18: check the scanner primitives against their byte-by-byte definition after every step
+    #[serde(default)]
+    pub group_monitor: bool,
 }
 fn lawful() -> EqMode {
     EqMode::Lawful
